@@ -245,7 +245,7 @@ func runC01(c *explore.Ctx) {
 	seqSub("macro", gen.SigmaMacro, c.Pick(4, 5), "Σ_macro")
 
 	tokSub := func(name string, alpha []gen.Tok, n int) {
-		s := c.Sub(name, fmt.Sprintf("every token sequence of ≤ %d tokens over %d token classes, rendered with single spaces; × every token limit −1..tokens+2; × every two-source split (≤ 4 tokens)", n, len(alpha)),
+		s := c.Sub(name, fmt.Sprintf("every token sequence of ≤ %d tokens over %d token classes, rendered with single spaces (sequences of 2–4 tokens also with one token per line); × every token limit −1..tokens+2; × every two-source split (≤ 4 tokens)", n, len(alpha)),
 			"as bytes, plus the limited entry points and ParseSchemas",
 			"input yields at least one token")
 		if s == nil {
@@ -253,7 +253,13 @@ func runC01(c *explore.Ctx) {
 		}
 		t0 := time.Now()
 		st, tr, complete := explore.Seqs(len(alpha), n, c.Shard, c.NShards, c.Expired, func(sym []int) bool {
-			c01Case(c, s, gen.Render(alpha, sym), true, len(sym) <= 4)
+			text := gen.Render(alpha, sym)
+			c01Case(c, s, text, true, len(sym) <= 4)
+			if len(sym) >= 2 && len(sym) <= 4 {
+				// every token on a line of its own (an error reported "after the previous token"
+				// must still lie on that token's line); the split at spaces does not apply
+				c01Case(c, s, strings.ReplaceAll(text, " ", "\n"), true, false)
+			}
 			return true
 		})
 		s.States, s.Transitions = st, tr
@@ -261,6 +267,33 @@ func runC01(c *explore.Ctx) {
 			s.Cap("deadline reached; shards not finished")
 		}
 		s.WallS = time.Since(t0).Seconds()
+	}
+	{
+		lineAlpha := []string{"", " ", "  ", "    ", "a", " a", "  a", "    a", "\ta", "  \t"}
+		nl := c.Pick(4, 5)
+		s := c.Sub("block-lines", fmt.Sprintf("every block string of ≤ %d lines over %d line shapes (blank lines of 0–4 spaces, text at indents 0, 1, 2, 4, tabs), terminated and unterminated, as an argument value and as a description", nl, len(lineAlpha)), "as bytes", "always")
+		if s != nil {
+			t0 := time.Now()
+			st, tr, complete := explore.Seqs(len(lineAlpha), nl, c.Shard, c.NShards, c.Expired, func(sym []int) bool {
+				if len(sym) == 0 {
+					return true
+				}
+				ls := make([]string, len(sym))
+				for i, x := range sym {
+					ls[i] = lineAlpha[x]
+				}
+				body := strings.Join(ls, "\n")
+				c01Case(c, s, `{a(x:"""`+body+`""")}`, false, false)
+				c01Case(c, s, `"""`+body+`""" scalar A`, false, false)
+				c01Case(c, s, `"""`+body, false, false)
+				return true
+			})
+			s.States, s.Transitions = st, tr
+			if !complete {
+				s.Cap("deadline reached; shards not finished")
+			}
+			s.WallS = time.Since(t0).Seconds()
+		}
 	}
 	tokSub("tokens-exec", gen.SigmaExec, c.Pick(4, 5))
 	tokSub("tokens-sdl", gen.SigmaSDL, c.Pick(4, 5))
